@@ -56,6 +56,10 @@ def mutations(rng, tok, key, wrap, enc, pool, pt):
             yield (m + " truncated by one", dict(tok, **{m: s[:-1]}), key, False)
         yield (m + " extended", dict(tok, **{m: s + "AA"}), key, False if m != "ciphertext" or True else None)
     if "aad" in tok:
+        # text with an embedded NUL: the whole text is the associated data, not its C-string prefix
+        a0 = tok["aad"]
+        yield ("aad extended behind a NUL", dict(tok, aad=a0 + "\u0000ZZZZ"), key, False)
+        yield ("aad cut by a NUL", dict(tok, aad=a0[:len(a0) // 2] + "\u0000" + a0[len(a0) // 2:]), key, False)
         yield ("aad removed", {k: v for k, v in tok.items() if k != "aad"}, key, False)
         yield ("aad type", dict(tok, aad=5), key, False)
     else:
